@@ -97,6 +97,7 @@ def opJson : Op → Json
   | .delAttic d => Json.arr #[Json.str "delAttic", jstr d]
 
 def prepJson : PrepOp Str → Json
+  | .invalidate => Json.str "invalidate"
   | .unlink => Json.str "unlink"
   | .emptyDir => Json.str "emptyDir"
   | .resetState d => Json.arr #[Json.str "resetState", jstr d]
